@@ -292,7 +292,7 @@ SPECS["C11"] = dict(
     level="model_checking",
     technique="bounded symbolic execution of the real BatchMaker::run loop (lowered with a synchronous select) and BatchMaker::seal (Kani/CBMC, SAT), default and benchmark builds",
     bounds="run loop: 5 event schedules of 3-5 events (arrivals of 0..12-byte transactions incl. empty, exact-threshold and oversize ones; timer expiries on empty and non-empty batches; batch_size 8/10; both select! start branches); seal: open batches of 1..3 transactions; contents fully symbolic; 3 peers",
-    outside="schedules and sizes other than the listed ones (sizes decide the loop's control flow and are concrete); a transaction and the timer becoming ready in the same step; Processor / receiver-side hashing (digest binding is C20); real time (the timer fires when the harness says so)",
+    outside="schedules and sizes other than the listed ones (sizes decide the loop's control flow and are concrete); a transaction and the timer becoming ready in the same step; the hash function itself (abstract hash recording its pre-image; digest binding is C20); batches in the Processor other than the two sizes listed; real time (the timer fires when the harness says so)",
     trusted_base=TB_L,
     assumptions=[],
     harnesses=[
@@ -304,6 +304,7 @@ SPECS["C11"] = dict(
         H("batch_maker_h", "c11_run_size_then_empty_s1", stubbing=True, timeout=900, mem_gb=16, symbolic="as s0, other select! start branch", asserts="as s0"),
         H("batch_maker_h", "c11_run_oversize_timer_s0", stubbing=True, timeout=900, mem_gb=16, symbolic="bytes of 3 transactions (12, 3, 2); schedule tx,timer,tx,tx,timer", asserts="as above; a timer on an empty batch seals nothing"),
         H("batch_maker_h", "c11_run_boundary_s1", stubbing=True, timeout=900, mem_gb=16, symbolic="bytes of 4 transactions (7, 1, 8, 9); batch_size 8", asserts="exact-threshold and consecutive size-triggered batches"),
+        H("processor_h", "c11_processor_two_batches", stubbing=True, timeout=900, mem_gb=16, symbolic="two batches of 5 and 3 bytes", asserts="real Processor loop: each batch is hashed over its exact bytes, stored byte-for-byte under that digest, announced once with that digest, in arrival order"),
         H("batch_maker_h", "c11_run_only_empty_s0", stubbing=True, timeout=900, mem_gb=16, symbolic="two empty transactions then the timer", asserts="a batch of only empty transactions is sealed when the timer fires"),
         H("batch_maker_h", "c11_run_oversize_timer_s1", tier="thorough", stubbing=True, timeout=900, mem_gb=16, symbolic="transaction contents; as oversize_timer, other select start", asserts="as the quick-tier run harnesses"),
         H("batch_maker_h", "c11_run_boundary_s0", tier="thorough", stubbing=True, timeout=900, mem_gb=16, symbolic="transaction contents; as boundary, other select start", asserts="as the quick-tier run harnesses"),
